@@ -210,6 +210,10 @@ def main(run):
         mn, mx = params[i % len(params)]
         traces.append(suffix_group(rng, mn, mx, 8 * 1024 if quick else 32 * 1024))
         run.case(('suffix', i, mn, mx))
+    # ... and at realistic scale: a shared suffix of 9 MiB delivered in one piece (a large last file), cuts around multiples of MiB
+    for i in range(1 if quick else 6):
+        traces.append(suffix_group(rng, 4096, 65536, 9 * (1 << 20) + 4096 * i))
+        run.case(('suffix-megabytes', i))
     for i in range(10 if quick else 120):
         mn, mx = params[i % 2]
         traces.append(edit_group(rng, mn, mx, n))
